@@ -86,6 +86,27 @@ def oracle(ctx, budget=1, replay=None, hints=None):
             if not (out is None or (isinstance(out, str) and out)):
                 r['failures'].append(dict(what='process_line(%r) returned %r' % (line, out), signature='C09:shape', case=dict(line=line)))
     r['evaluations'] += n
+    # the table of deferred codes is edited in the settings while the tool is inside a region (D25, repaired): a code captured whole under
+    # first / last and merged afterwards, and every other change of mode with an entry pending
+    from octoprint_excluderegion.ExcludedGcode import ExcludedGcode
+    from fractions import Fraction as _F
+    for m1 in ('first', 'last', 'merge', 'exclude'):
+        for m2 in ('first', 'last', 'merge', 'exclude'):
+            h = impl.new_handlers([('rect', 'a', _F(10), _F(10), _F(20), _F(20))], ext={'M117': m1, 'M204': m1})
+            cmds = ['G28', 'G1 X5 Y5 F3000', 'G1 X15 Y15', 'M117 S1', 'M204 S500 P1', ('mode', m2), 'M117 S2', 'M204 T2', 'M204', 'G1 X30 Y30']
+            r['evaluations'] += 1
+            try:
+                for c in cmds:
+                    if isinstance(c, tuple):
+                        h.state.extendedExcludeGcodes = {g: ExcludedGcode(g, c[1], '') for g in ('M117', 'M204')}
+                        continue
+                    k, pl = impl.step(h, c)
+                    if k == 'replace' and not all(isinstance(x, str) and x for x in pl):
+                        r['failures'].append(dict(what='illegal result %r for %r after the mode of the code was changed from %s to %s' % (pl, c, m1, m2), signature='C09:shape',
+                                                  case=dict(commands=[str(x) for x in cmds])))
+            except Exception as e:
+                r['failures'].append(dict(what='%r raised %s: %s after the mode of a pending deferred code was changed from %s to %s in mid-episode' % (c, type(e).__name__, e, m1, m2),
+                                          signature='C09:' + type(e).__name__, case=dict(commands=[str(x) for x in cmds])))
     # known finding D17: the number of arc segments is unbounded (resource exhaustion); reproduced under a time limit
     try:
         subprocess.run(['/venv/bin/python', '-c', D17], timeout=3, stdout=subprocess.PIPE, stderr=subprocess.PIPE,
